@@ -146,17 +146,36 @@ class P:
         for k in TEST_EXT:
             if k[0] != 0:
                 model.pop(k, None)
-        cycles = 3 if tier == "quick" else 24
+        cycles = 5 if tier == "quick" else 25
+        try:
+            tm = json.load(open(os.path.join(vf.ROOT, ".build", "extract.json")))["timing"]
+            grace_s = max(v["grace_ns"] for v in tm.values()) / 1e9
+        except Exception:
+            grace_s = 1.0
         runs = 1 if tier == "quick" else 3
         viol, log = [], []
         n_cycles = 0
+        MODES = ["steady", "trickle", "burst", "late", "idle"]
         for run in range(runs):
             d = tempfile.mkdtemp(prefix="verif-e2e-", dir=os.path.join(vf.ROOT, ".build"))
             sink = Sink()
             try:
                 col = Collector(d, sink.port)
-                acked = []     # (proto, src ip, data payload, published line)
+                acked = {}     # (proto, src ip, template id) -> (data payload, published line)
                 gens = {"ipfix": Gen("ipfix", model, rng), "nf9": Gen("nf9", model, rng)}
+
+                def announce(proto, ip, t, o):
+                    """announce template t from ip, send data for it, wait until it is published (= acknowledged)"""
+                    g = gens[proto]
+                    tmsg = g.enc_msg([g.enc_set(g.tpl_set_id(o), g.enc_tpl(t, o))])
+                    dmsg = g.enc_msg([g.enc_set(t.tid, g.rand_record(t)[0])], seq=rng.randrange(2 ** 32))
+                    self.send(ip, col.ports[proto], tmsg)
+                    time.sleep(0.02)
+                    self.send(ip, col.ports[proto], dmsg)
+                    key = ('"AgentID":"%s"' % ip).encode()
+                    seqkey = (b'"SequenceNo":%d' if proto == "ipfix" else b'"SeqNum":%d') % struct_seq(proto, dmsg)
+                    return dmsg, sink.wait_for(lambda l: key in l and seqkey in l, 3.0)
+
                 for cyc in range(cycles):
                     n_cycles += 1
                     if not col.start():
@@ -165,37 +184,43 @@ class P:
                     with sink.lock:
                         sink.lines.clear()
                     # 1. data for every template acknowledged before the last signal, WITHOUT resending templates
-                    for (proto, ip, data, pub) in acked:
+                    for (proto, ip, tid), (data, pub) in acked.items():
                         self.send(ip, col.ports[proto], data)
-                    for (proto, ip, data, pub) in acked:
+                    for (proto, ip, tid), (data, pub) in acked.items():
                         if sink.wait_for(lambda l: l == pub, 3.0) is None:
-                            viol.append({"cases": [], "verdict": "after restart %d, data for a template acknowledged before the signal (%s exporter %s) is not decoded: templates were lost" % (cyc, proto, ip),
+                            viol.append({"cases": [], "verdict": "after restart %d, data for a template acknowledged before the signal (%s exporter %s, template %d) is not decoded: templates were lost" % (cyc, proto, ip, tid),
                                          "datagram": data.hex(), "expected_published": pub.decode("latin1")[:300]}); break
                     if viol:
                         col.stop(signal.SIGKILL); break
-                    # 2. new exporters announce templates and send data; a template is acknowledged once its data is published
-                    mode = ["idle", "steady", "burst"][(cyc + run) % 3]
+                    mode = MODES[(cyc + run) % 5]
+                    shrink = (cyc % 3 == 2) and len(acked) > 0
                     new = []
-                    for k in range(rng.choice([1, 2, 4])):
-                        proto = rng.choice(["ipfix", "nf9"])
-                        g = gens[proto]
-                        ip = "127.0.0.%d" % rng.randrange(2, 250)
-                        while True:
-                            t, o = g.rand_tpl(tid=rng.choice([256, 257, 300, 999]), allow_var=False)
-                            if g.min_rec_len(t) > 4:
-                                break
-                        tmsg = g.enc_msg([g.enc_set(g.tpl_set_id(o), g.enc_tpl(t, o))])
-                        dmsg = g.enc_msg([g.enc_set(t.tid, g.rand_record(t)[0])], seq=rng.randrange(2 ** 32))
-                        self.send(ip, col.ports[proto], tmsg)
-                        time.sleep(0.02)
-                        before = len(sink.lines)
-                        self.send(ip, col.ports[proto], dmsg)
-                        key = ('"AgentID":"%s"' % ip).encode()
-                        seqkey = (b'"SequenceNo":%d' if proto == "ipfix" else b'"SeqNum":%d') % struct_seq(proto, dmsg)
-                        pub = sink.wait_for(lambda l: key in l and seqkey in l, 3.0)
-                        if pub is None:
-                            viol.append({"cases": [], "verdict": "cycle %d: data sent after its template was never published (%s from %s)" % (cyc, proto, ip)}); break
-                        new.append((proto, ip, dmsg, pub))
+                    if shrink:
+                        # 2a. a SHRINKING cache: every known exporter re-announces its template with a single field and nobody new
+                        # appears, so the file saved at this stop is shorter than the one it replaces
+                        for (proto, ip, tid) in list(acked):
+                            from props.flowgen import Tpl
+                            t = Tpl(tid, [], [(1, 0, 8)])
+                            dmsg, pub = announce(proto, ip, t, False)
+                            if pub is None:
+                                viol.append({"cases": [], "verdict": "cycle %d: data sent after the re-announced template was never published (%s from %s)" % (cyc, proto, ip)}); break
+                            acked[(proto, ip, tid)] = (dmsg, pub)
+                            new.append((proto, ip, dmsg, pub))
+                    else:
+                        # 2b. new exporters announce templates and send data; a template is acknowledged once its data is published
+                        for k in range(rng.choice([2, 4])):
+                            proto = rng.choice(["ipfix", "nf9"])
+                            g = gens[proto]
+                            ip = "127.0.0.%d" % rng.randrange(2, 250)
+                            while True:
+                                t, o = g.rand_tpl(tid=rng.choice([256, 257, 300, 999]), allow_var=False)
+                                if g.min_rec_len(t) > 4:
+                                    break
+                            dmsg, pub = announce(proto, ip, t, o)
+                            if pub is None:
+                                viol.append({"cases": [], "verdict": "cycle %d: data sent after its template was never published (%s from %s)" % (cyc, proto, ip)}); break
+                            acked[(proto, ip, t.tid)] = (dmsg, pub)
+                            new.append((proto, ip, dmsg, pub))
                     if viol:
                         col.stop(signal.SIGKILL); break
                     # 3. traffic in flight when the signal arrives
@@ -215,10 +240,43 @@ class P:
                                     pass
                         stopper = threading.Thread(target=burst, daemon=True); stopper.start()
                         time.sleep(rng.choice([0.0, 0.01, 0.05]))
+                    if mode == "trickle":
+                        # datagrams keep arriving, a few per 20 ms on all four ports, for as long as the process lives after the signal
+                        def trickle(proc=col.p):
+                            t0 = time.time()
+                            j = 0
+                            while proc.poll() is None and time.time() - t0 < 8:
+                                proto, ip, dmsg, pub = new[j % len(new)]; j += 1
+                                try:
+                                    self.send(ip, col.ports[proto], dmsg)
+                                    self.send("127.0.0.1", col.ports["nf5"], os.urandom(72))
+                                    self.send("127.0.0.1", col.ports["sflow"], os.urandom(72))
+                                    self.send("127.0.0.1", col.ports["nf9" if proto == "ipfix" else "ipfix"], os.urandom(40))
+                                except OSError:
+                                    pass
+                                time.sleep(0.02)
+                        stopper = threading.Thread(target=trickle, daemon=True); stopper.start()
+                        time.sleep(0.05)
+                    if mode == "late":
+                        # a sparse exporter: silence after the signal for the whole grace period of shutdown(), THEN datagrams
+                        # (a receive loop still blocked in a read at that point would send on the closed channel)
+                        def late(proc=col.p):
+                            time.sleep(grace_s + 0.12)
+                            t0 = time.time()
+                            j = 0
+                            while proc.poll() is None and time.time() - t0 < 8:
+                                proto, ip, dmsg, pub = new[j % len(new)]; j += 1
+                                try:
+                                    self.send(ip, col.ports["ipfix"], dmsg); self.send(ip, col.ports["nf9"], dmsg)
+                                    self.send("127.0.0.1", col.ports["nf5"], os.urandom(72)); self.send("127.0.0.1", col.ports["sflow"], os.urandom(72))
+                                except OSError:
+                                    pass
+                                time.sleep(0.03)
+                        stopper = threading.Thread(target=late, daemon=True); stopper.start()
                     rc, lat, err = col.stop(sig)
                     if stopper:
                         stopper.join(timeout=10)
-                    log.append({"cycle": cyc, "mode": mode, "signal": sig.name, "exit": rc, "latency_s": round(lat, 2), "acked_templates": len(acked) + len(new)})
+                    log.append({"cycle": cyc, "mode": mode + ("+shrink" if shrink else ""), "signal": sig.name, "exit": rc, "latency_s": round(lat, 2), "acked_templates": len(acked)})
                     if rc != 0:
                         viol.append({"cases": [], "verdict": "collector exited with status %s on %s (%s traffic)" % (rc, sig.name, mode), "stderr_tail": err[-800:]}); break
                     if lat > 5.0:
@@ -233,7 +291,6 @@ class P:
                             viol.append({"cases": [], "verdict": "cache file %s left by the collector is not complete / loadable: %s" % (f, e)}); break
                     if viol:
                         break
-                    acked += new
             finally:
                 sink.close()
                 if col.p and col.p.poll() is None:
@@ -245,10 +302,12 @@ class P:
                                                       "samples": log[:3] or ["no cycle completed"]}}
 
     def rule(self):
-        return ("stop/start cycles of the built binary on the same cache files (quick 3, thorough 3x24): in every cycle new exporters "
-                "(127.0.0.x) announce IPFIX/v9 templates and send data until it is published (= acknowledged); SIGTERM/SIGINT alternate, "
-                "arriving while idle, during steady traffic, or 0-50 ms into a 3000-datagram burst (incl. garbage); after the restart, data "
-                "for every template acknowledged in ANY earlier cycle is sent without templates and must be published byte-identically")
+        return ("stop/start cycles of the built binary on the same cache files (quick 5, thorough 3x25): in every cycle new exporters "
+                "(127.0.0.x) announce IPFIX/v9 templates and send data until it is published (= acknowledged); every third cycle instead all "
+                "known exporters re-announce a one-field template (the saved file shrinks); SIGTERM/SIGINT alternate, arriving during steady "
+                "traffic, while datagrams keep trickling in on all four ports until the process is gone, after a silence as long as shutdown()'s sleep ('late'), 0-50 ms into a 3000-datagram burst "
+                "(incl. garbage), or while idle; after the restart, data for every template acknowledged in ANY earlier cycle is sent without "
+                "templates and must be published byte-identically")
 
     def trusted_base(self):
         return ["Coq 8.16.1 kernel (ordering / survival lemmas in Properties/C15.v over Model/Shutdown.v, with C10 and C11)",
